@@ -185,8 +185,123 @@ var uploadImpl = map[string]core.Adapter{
 	},
 }
 
+// runUploadSeq: one handle, several operations; three directories d0 (where the control
+// file starts), d1, d2.  Returns the model-comparable dump and the law's verdict.
+func runUploadSeq(a []string) (string, string) {
+	kind, ctl := a[0], core.MustUnHex(a[1])
+	n, _ := strconv.Atoi(a[2])
+	root, err := os.MkdirTemp("", "verif-uploadseq-")
+	if err != nil {
+		return "infrastructure", "ok"
+	}
+	defer os.RemoveAll(root)
+	dirs := []string{filepath.Join(root, "d0"), filepath.Join(root, "d1"), filepath.Join(root, "d2")}
+	for _, d := range dirs {
+		os.Mkdir(d, 0o755)
+	}
+	var names []string
+	for i := 0; i < n; i++ {
+		names = append(names, core.MustUnHex(a[3+2*i]))
+	}
+	var doc strings.Builder
+	if kind == "dsc" {
+		doc.WriteString("Format: 1.0\nSource: s\nVersion: 1\n")
+	} else {
+		doc.WriteString("Format: 1.8\nSource: s\nVersion: 1\n")
+	}
+	if n > 0 {
+		doc.WriteString("Files:\n")
+		for _, nm := range names {
+			if kind == "dsc" {
+				fmt.Fprintf(&doc, " d41d8cd98f00b204e9800998ecf8427e 1 %s\n", nm)
+			} else {
+				fmt.Fprintf(&doc, " d41d8cd98f00b204e9800998ecf8427e 1 utils optional %s\n", nm)
+			}
+		}
+	}
+	ctlPath := filepath.Join(dirs[0], ctl)
+	os.WriteFile(ctlPath, []byte(doc.String()), 0o644)
+	var run func(op, dst string) error
+	var handle func() string
+	if kind == "dsc" {
+		d, err := control.ParseDscFile(ctlPath)
+		if err != nil {
+			return "parse-error", "ok"
+		}
+		handle = func() string { return d.Filename }
+		run = func(op, dst string) error {
+			switch op {
+			case "copy":
+				return d.Copy(dst)
+			case "move":
+				return d.Move(dst)
+			}
+			return d.Remove()
+		}
+	} else {
+		c, err := control.ParseChangesFile(ctlPath)
+		if err != nil {
+			return "parse-error", "ok"
+		}
+		handle = func() string { return c.Filename }
+		run = func(op, dst string) error {
+			switch op {
+			case "copy":
+				return c.Copy(dst)
+			case "move":
+				return c.Move(dst)
+			}
+			return c.Remove()
+		}
+	}
+	for i, nm := range names {
+		if plainName(nm) {
+			mkNode(filepath.Join(dirs[0], nm), a[4+2*i])
+		}
+	}
+	ops := a[3+2*n+1:]
+	here := func() int {
+		for i, d := range dirs {
+			if handle() == d+"/"+ctl {
+				return i
+			}
+		}
+		return -1
+	}
+	var results []string
+	verdict := "ok"
+	for i := 0; i+1 < len(ops); i += 2 {
+		t, _ := strconv.Atoi(ops[i+1])
+		h := here()
+		if h < 0 {
+			return "handle-elsewhere:" + handle(), "FAIL the handle points at " + handle()
+		}
+		if t == h {
+			return "unmodelled", "ok"
+		}
+		before := []string{dumpDirFS(dirs[0]), dumpDirFS(dirs[1]), dumpDirFS(dirs[2])}
+		err := run(ops[i], dirs[t])
+		res := "ok"
+		if err != nil {
+			res = "err"
+		}
+		results = append(results, res)
+		for k := range dirs {
+			if k != h && (k != t || ops[i] == "remove") && dumpDirFS(dirs[k]) != before[k] && verdict == "ok" {
+				verdict = fmt.Sprintf("FAIL step %d (%s from d%d to d%d, %s) changed d%d, which is neither the control file's directory nor the destination: %s -> %s", i/2+1, ops[i], h, t, res, k, before[k], dumpDirFS(dirs[k]))
+			}
+		}
+		if res == "ok" && ops[i] != "remove" && here() != t && verdict == "ok" {
+			verdict = fmt.Sprintf("FAIL step %d (%s to d%d) succeeded but the handle points at %s", i/2+1, ops[i], t, handle())
+		}
+	}
+	return strings.Join(results, ",") + " here=" + strconv.Itoa(here()) + " " + dumpDirFS(dirs[0]) + " " + dumpDirFS(dirs[1]) + " " + dumpDirFS(dirs[2]), verdict
+}
+
 // law-upload is the same run judged against the property directly
 func init() {
+	uploadImpl["uploadseq"] = func(a []string) string { out, _ := runUploadSeq(a); return out }
+	uploadImpl["law-uploadseq"] = func(a []string) string { _, v := runUploadSeq(a); return v }
 	uploadImpl["law-upload"] = func(a []string) string {
 		res := uploadImpl["upload"](a)
 		op, ctl := a[0], core.MustUnHex(a[2])
@@ -287,6 +402,37 @@ func streamUpload(g *core.G) {
 		g.Emit("upload", args...)
 		g.Emit("law-upload", args...)
 	}
+	// one handle used for two to four operations in a row (as an archive tool does: copy
+	// to a staging directory, then move on or remove)
+	for i := g.N(150, 8000); i > 0; i-- {
+		kind := r.Pick([]string{"dsc", "changes"})
+		ctl := "s_1.dsc"
+		if kind == "changes" {
+			ctl = "s_1_amd64.changes"
+		}
+		k := r.Intn(4)
+		args := []string{core.Hex(ctl), strconv.Itoa(k)}
+		for j := 0; j < k; j++ {
+			st := r.Pick(srcStates[:3])
+			if r.Chance(1, 8) {
+				st = r.Pick(srcStates)
+			}
+			args = append(args, core.Hex(r.Pick([]string{"a", "b.tar.gz", "c_1.0.orig.tar.xz", "d"})+strconv.Itoa(j)), st)
+		}
+		nops := r.Range(2, 4)
+		args = append(args, strconv.Itoa(nops))
+		here := 0
+		for j := 0; j < nops; j++ {
+			op := r.Pick([]string{"copy", "copy", "move", "move", "remove"})
+			t := (here + 1 + r.Intn(2)) % 3
+			args = append(args, op, strconv.Itoa(t))
+			if op != "remove" {
+				here = t // where the handle is if the step succeeds (most do)
+			}
+		}
+		g.Emit("uploadseq", append([]string{kind}, args...)...)
+		g.Emit("law-uploadseq", append([]string{kind}, args...)...)
+	}
 }
 
 func init() {
@@ -302,6 +448,13 @@ func init() {
 		Impl: uploadImpl, TrustedBase: tb,
 		Readable: func(op string, a []string) string {
 			var parts []string
+			if strings.HasSuffix(op, "uploadseq") {
+				n, _ := strconv.Atoi(a[2])
+				for i := 0; i < n; i++ {
+					parts = append(parts, fmt.Sprintf("%q:%s", core.MustUnHex(a[3+2*i]), a[4+2*i]))
+				}
+				return fmt.Sprintf("%s %s %s files=%v ops(op, target dir)=%v", op, a[0], core.MustUnHex(a[1]), parts, a[4+2*n:])
+			}
 			n, _ := strconv.Atoi(a[6])
 			for i := 0; i < n; i++ {
 				parts = append(parts, fmt.Sprintf("%q:%s->%s", core.MustUnHex(a[7+3*i]), a[8+3*i], a[9+3*i]))
